@@ -661,45 +661,125 @@ func step(line string, label string) (out string, idx int) {
 			writeFile()
 			res = "ok"
 		}
-	case op == "load" && len(ws) == 1:
+	case (op == "load" && len(ws) == 1) ||
+		(op == "restart" && len(ws) == 3 && (ws[1] == "create" || ws[1] == "open") && (ws[2] == "load" || ws[2] == "noload")):
+		// `restart create|open load|noload`: a NEW process attaches to the live segment the way main_init does
+		// (NewSHM(key, …, isCreate)) and, with `load`, runs LoadUHash against the .PASSWDS currently on disk.
 		s := cache.Shm.Shm
 		cold := s.Number == 0 && s.Loaded == 0
-		if fileNone || fileTorn || len(fileIDs) > MAX {
-			legal = false
-		} else if cold {
-			for k := 0; k < MAX; k++ {
-				if !isZeroID(&s.Userid[k]) {
+		doLoad := op == "load" || ws[2] == "load"
+		wantRes, mustNotWrite := "ok", !doLoad
+		if doLoad {
+			switch {
+			case len(fileIDs) > MAX:
+				legal = false
+			case cold:
+				if fileNone || fileTorn {
 					legal = false
 				}
-			}
-		} else {
-			if len(detached) > 0 {
-				legal = false
-			}
-			for k := range fileIDs {
-				if !sameStr(&fileIDs[k], &s.Userid[k]) {
-					legal = false
+				for k := 0; k < MAX; k++ {
+					if !isZeroID(&s.Userid[k]) {
+						legal = false
+					}
+				}
+			case fileNone:
+				// a reload that cannot open its .PASSWDS must leave the live index alone
+				wantRes, mustNotWrite = "errfile", true
+			default:
+				for k := range fileIDs {
+					if !sameStr(&fileIDs[k], &s.Userid[k]) {
+						legal = false
+					}
+				}
+				if fileTorn {
+					wantRes = "errfile"
+				}
+				if len(detached) > 0 && int(cache.PRE_ALLOCATED_USERS) < MAX {
+					legal = false // the loader may skip records: which detached slots it re-links is not judged
 				}
 			}
 		}
+		var snap *cache.SHMRaw
+		if mustNotWrite && legal {
+			snap = &cache.SHMRaw{}
+			snap.Userid, snap.HashHead, snap.NextInHash, snap.Number, snap.Loaded = s.Userid, s.HashHead, s.NextInHash, s.Number, s.Loaded
+		}
 		if label == "" {
-			if cold {
-				label = "load:cold"
-			} else {
-				label = "load:onfly"
+			label = "load"
+			if op == "restart" {
+				label = "restart-" + ws[1] + "-" + ws[2]
+			}
+			if doLoad {
+				if cold {
+					label += ":cold"
+				} else {
+					label += ":onfly"
+				}
+				switch {
+				case fileNone:
+					label += "-nofile"
+				case fileTorn:
+					label += "-torn"
+				}
+				if len(detached) > 0 {
+					label += "-detached"
+				}
 			}
 			if !legal {
 				label += "-outside"
 			}
 		}
-		res = call(func() string { return retName(cache.LoadUHash()) })
-		fresh = false
-		if cold && legal {
-			detached = map[int]bool{}
+		attachRes := ""
+		if op == "load" {
+			res = call(func() string { return retName(cache.LoadUHash()) })
+		} else {
+			res = restartChild(ws[1] == "create", doLoad)
+			if res == "PANIC" || res == "TIMEOUT" {
+				dead = true
+			}
+			if f := strings.Fields(res); len(f) == 3 {
+				attachRes = f[0] + " " + f[1]
+			}
+		}
+		if doLoad {
+			fresh = false
+		}
+		if doLoad && legal && !mustNotWrite {
+			if cold {
+				detached = map[int]bool{}
+			} else {
+				// an on-the-fly reload re-examines every record: a slot taken out by RemoveFromUHash whose id is still
+				// in the table (and agrees with the file) is linked again
+				for k := range detached {
+					if k < len(fileIDs) {
+						delete(detached, k)
+					}
+				}
+			}
 		}
 		post = func(i int) {
-			if res != "ok" {
-				fail(i, "op:unexpected-error", "LoadUHash returned "+res)
+			got := res
+			if op == "restart" {
+				if attachRes != "ok 0" {
+					fail(i, "attach:handshake", fmt.Sprintf("a second process attaching (%s) to the live segment: %q, expected ok and not-new", ws[1], res))
+					return
+				}
+				got = strings.Fields(res)[2]
+				if !doLoad {
+					wantRes = "-"
+				}
+			}
+			if got != wantRes {
+				fail(i, "op:unexpected-error", fmt.Sprintf("%s: LoadUHash returned %s, expected %s", op, got, wantRes))
+				return
+			}
+			if snap != nil && (snap.Userid != s.Userid || snap.HashHead != s.HashHead || snap.NextInHash != s.NextInHash ||
+				snap.Number != s.Number || snap.Loaded != s.Loaded) {
+				what := "an attach without a load"
+				if doLoad {
+					what = "a reload that could not open .PASSWDS"
+				}
+				fail(i, "reload:failed-load-wrote", what+" changed the live index (Userid/HashHead/NextInHash/Number/Loaded differ from before)")
 			}
 		}
 	case op == "add" && len(ws) == 3:
@@ -899,7 +979,7 @@ func step(line string, label string) (out string, idx int) {
 			}
 		}
 	}
-	if fresh && op != "reset" && op != "file" && op != "load" {
+	if fresh && op != "reset" && op != "file" && op != "load" && op != "restart" {
 		legal = false
 	}
 	if res == "bad-op" {
@@ -999,6 +1079,67 @@ func attachChild(ver, size int32, queries []ID) (string, []string) {
 	return lines[0], lines[1:]
 }
 
+// restartChild runs this binary as a fresh process that attaches to the live segment as creator (isCreate=true, what
+// main_init does with IS_NEW_SHM) or as opener, and optionally runs LoadUHash with the same BBSHOME. Answer:
+// "<attach result> <IsNew 0|1> <LoadUHash result or ->".
+func restartChild(create, load bool) string {
+	self, err := os.Executable()
+	if err != nil {
+		return "TIMEOUT"
+	}
+	b2 := func(b bool) string {
+		if b {
+			return "1"
+		}
+		return "0"
+	}
+	cmd := osexec.Command(self, "-mode", "restart", "-key", strconv.Itoa(env.ShmKey), env.Home, b2(create), b2(load))
+	done := make(chan struct{})
+	var outb []byte
+	go func() { outb, _ = cmd.Output(); close(done) }()
+	select {
+	case <-done:
+	case <-time.After(20 * time.Second):
+		_ = cmd.Process.Kill()
+		return "TIMEOUT"
+	}
+	l := strings.TrimSpace(string(outb))
+	if len(strings.Fields(l)) != 3 {
+		return "PANIC"
+	}
+	return l
+}
+
+func restartMain(key int, home string, create, load bool) {
+	bbsenv.Quiet()
+	w := bufio.NewWriter(os.Stdout)
+	defer w.Flush()
+	ptttype.SetBBSHOME(home)
+	err := cache.NewSHM(types.Key_t(key), ptttype.USE_HUGETLB, create)
+	switch err {
+	case nil:
+	case cache.ErrShmVersion:
+		fmt.Fprintln(w, "errversion 0 -")
+		return
+	case cache.ErrShmSize:
+		fmt.Fprintln(w, "errsize 0 -")
+		return
+	default:
+		fmt.Fprintln(w, "erropen 0 -")
+		return
+	}
+	isNew := "0"
+	if cache.Shm.IsNew {
+		isNew = "1"
+	}
+	lr := "-"
+	if load {
+		lr = hx.CallSync(func() string { return retName(cache.LoadUHash()) })
+	}
+	fmt.Fprintln(w, "ok", isNew, lr)
+	// the process exits without CloseSHM: the segment belongs to the running service
+}
+
 func childMain(key int) {
 	bbsenv.Quiet()
 	err := cache.NewSHM(types.Key_t(key), false, false)
@@ -1034,6 +1175,11 @@ func main() {
 	if len(os.Args) >= 5 && os.Args[1] == "-mode" && os.Args[2] == "attach" && os.Args[3] == "-key" {
 		k, _ := strconv.Atoi(os.Args[4])
 		childMain(k)
+		return
+	}
+	if len(os.Args) >= 8 && os.Args[1] == "-mode" && os.Args[2] == "restart" && os.Args[3] == "-key" {
+		k, _ := strconv.Atoi(os.Args[4])
+		restartMain(k, os.Args[5], os.Args[6] == "1", os.Args[7] == "1")
 		return
 	}
 	if len(os.Args) >= 5 && os.Args[1] == "-mode" && os.Args[2] == "peer" && os.Args[3] == "-key" {
